@@ -3,6 +3,7 @@ Helper lemmas for Props/C08Pg.lean: `PostgresStoreOptions::new` (Model/PgOptions
 -/
 import AskarModel.Model.PgOptions
 import AskarModel.Lemmas.Uri
+import AskarModel.Lemmas.UriOpts
 
 namespace Askar.PgOptions
 open Askar.Uri
@@ -439,5 +440,79 @@ def adminWitness : Options :=
 def adminWitness2 : Options :=
   { scheme := sPostgres, user := [0x75], host := [0x61, 0x40, 0x62], path := [0x2F, 0x64, 0x62],
     query := [(kAdminAcct, []), (kAdminPass, [])] }
+
+theorem adminWitness_wf : adminWitness.WF = true := by decide
+theorem adminWitness2_wf : adminWitness2.WF = true := by decide
+
+theorem adminWitness_ok : pgNew adminWitness = .ok (pgValue adminWitness 30 300 10 0) := by rfl
+theorem adminWitness2_ok : pgNew adminWitness2 = .ok (pgValue adminWitness2 30 300 10 0) := by rfl
+
+theorem adminWitness_scheme : (parseUri (intoUriWith [] (adminExpected adminWitness))).scheme = [0x61, 0x64, 0x6D] := by decide
+theorem adminWitness2_user : (parseUri (intoUriWith [] (adminExpected adminWitness2))).user = [0x61] := by decide
+
+/-! ### the fields of an accepted call -/
+
+theorem numOf_reads {bits d : Nat} {x : Option Str} {n : Nat} (h : numOf bits d x = .ok n) : NumReads x bits d n := by
+  cases x with
+  | none => simpa [numOf, NumReads, eq_comm] using h
+  | some v =>
+    cases hp : parseUnsigned bits v with
+    | none => simp [numOf, hp] at h
+    | some m => simpa [numOf, NumReads, hp] using h
+
+theorem numOf_lt {bits d : Nat} {x : Option Str} {n : Nat} (hd : d < 2 ^ bits) (h : numOf bits d x = .ok n) : n < 2 ^ bits := by
+  have := numOf_reads h
+  cases x with
+  | none => simp only [NumReads] at this; omega
+  | some v => exact parseUnsigned_lt this
+
+theorem numeric_fields (o : Options) (r : PgOpts) (h : pgNew o = .ok r) :
+    NumReads (mapGet o.query kConnect) 64 30 r.connectTimeout ∧ NumReads (mapGet o.query kIdle) 64 300 r.idleTimeout ∧
+    NumReads (mapGet o.query kMax) 32 10 r.maxConnections ∧ NumReads (mapGet o.query kMin) 32 0 r.minConnections ∧
+    r.connectTimeout < 2 ^ 64 ∧ r.idleTimeout < 2 ^ 64 ∧ r.maxConnections < 2 ^ 32 ∧ r.minConnections < 2 ^ 32 := by
+  obtain ⟨h1, h2, h3, h4, _⟩ := (pgNew_ok_iff o r).1 h
+  exact ⟨numOf_reads h1, numOf_reads h2, numOf_reads h3, numOf_reads h4,
+    numOf_lt (by decide) h1, numOf_lt (by decide) h2, numOf_lt (by decide) h3, numOf_lt (by decide) h4⟩
+
+theorem validIdent_iff (s : Str) : validIdent s = true ↔ s ≠ [] ∧ (0x22 : UInt8) ∉ s ∧ (0x00 : UInt8) ∉ s := by
+  simp [validIdent, and_assoc]
+
+theorem usernameOf_eq (o : Options) : usernameOf o = if o.user = [] then sPostgres else o.user := by
+  unfold usernameOf
+  by_cases h : o.user = [] <;> simp [h]
+
+theorem ident_fields (o : Options) (r : PgOpts) (h : pgNew o = .ok r) :
+    r.name = o.path.drop 1 ∧ r.name ≠ [] ∧ (0x22 : UInt8) ∉ r.name ∧ (0x00 : UInt8) ∉ r.name ∧
+    r.username = (if o.user = [] then sPostgres else o.user) ∧ r.username ≠ [] ∧ (0x22 : UInt8) ∉ r.username ∧
+      (0x00 : UInt8) ∉ r.username ∧
+    r.schema = mapGet o.query kSchema ∧ (∀ s, r.schema = some s → s ≠ [] ∧ (0x22 : UInt8) ∉ s ∧ (0x00 : UInt8) ∉ s) ∧
+    r.host = o.host := by
+  obtain ⟨_, _, _, _, _, _, hs, hn, hu, _⟩ := (pgNew_ok_iff o r).1 h
+  obtain ⟨_, _, fh, fn, fu, fs⟩ := pgNew_ok_fields h
+  have hn' := (validIdent_iff _).1 hn
+  have hu' := (validIdent_iff _).1 hu
+  rw [fn, fu, fs, fh]
+  refine ⟨rfl, hn'.1, hn'.2.1, hn'.2.2, usernameOf_eq o, hu'.1, hu'.2.1, hu'.2.2, rfl, ?_, rfl⟩
+  intro s hsome
+  exact (validIdent_iff s).1 ((schemaOk_iff o).1 hs s hsome)
+
+theorem consumed_absent (o : Options) (r : PgOpts) (h : pgNew o = .ok r) :
+    (∀ kv ∈ r.uriOpts.query, kv.1 ∉ consumed) ∧ (∀ kv ∈ r.adminOpts.query, kv.1 ∉ consumed) ∧
+    (∀ k ∈ consumed, mapGet r.uriOpts.query k = none ∧ mapGet r.adminOpts.query k = none) := by
+  obtain ⟨fu, fa, _⟩ := pgNew_ok_fields h
+  rw [fu, fa]
+  refine ⟨fun kv hkv => (not_consumed_of_mem_filter hkv).2, fun kv hkv => (not_consumed_of_mem_filter hkv).2, ?_⟩
+  intro k hk
+  exact ⟨mapGet_withoutConsumed o k hk, mapGet_withoutConsumed o k hk⟩
+
+theorem consumed_absent_parsed (hf : Askar.Generated.Flags.uriQueryAmpersand = true)
+    (o : Options) (hwf : o.WF = true) (hadm : (adminExpected o).WF = true) (r : PgOpts) (h : pgNew o = .ok r)
+    (qs : List (Str × Str)) (hp : qs.Perm r.uriOpts.query) (qa : List (Str × Str)) (ha : qa.Perm r.adminOpts.query) :
+    (∀ kv ∈ (parseUri (r.uriWith qs)).query, kv.1 ∉ consumed) ∧
+    (∀ kv ∈ (parseUri (r.adminUriWith qa)).query, kv.1 ∉ consumed) := by
+  have e1 := (uri_reads_back hf o hwf r h qs hp).2.2.2.2.2.2
+  have e2 := (admin_reads_back hf o hadm r h qa ha).2.2.2.2.2.2
+  exact ⟨fun kv hkv => (not_consumed_of_mem_filter (e1.mem_iff.1 hkv)).2,
+         fun kv hkv => (not_consumed_of_mem_filter (e2.mem_iff.1 hkv)).2⟩
 
 end Askar.PgOptions
